@@ -6,7 +6,7 @@ from .aggs import AGG, AGG_LOOPS, SPECS, build_check
 from .common import call_catch, finite, sym_matrix
 
 CHECKS = [build_check("C18", SPECS[k], clauses=("rejects", "post", "dtype", "shape", "stateless")) for k in
-          ("Random", "GradDrop.default", "GradDrop.leak", "PCGrad")]
+          ("Random", "GradDrop.default", "GradDrop.leak", "PCGrad", "CAGrad")]
 TRUSTED = ["bridge lemmas softmax_simplex, cagrad_distance, cagrad_c_zero, mgda_step_descent, simplex_segment, fwGamma_*, "
            "pcStep_*, pcgrad_no_conflict (Lean)"]
 
